@@ -108,7 +108,7 @@ static uint64_t p0_count(int thorough) {
 }
 static void p0_run(uint64_t idx, vh_rng_t * rng) {
     static vh_buf_t A[6], B, alone, after, all;
-    int na = (idx % 3 == 0) ? 1 + (int) vh_below(rng, 6) : 1, i, fa = 0, fb = 0, overrun = 0, zero_flush = 0, reinit = 0;
+    int na = (idx % 3 == 0) ? 1 + (int) vh_below(rng, 6) : 1, i, fa = 0, fb = 0, overrun = 0, zero_flush = 0, reinit = 0, mixed = 0;
     vh_ctx_t * v; size_t bufsize = 512; char key[128];
     if (!sigs[0].nsteps) init_sigs();
     vh_buf_reset(&all);
@@ -177,6 +177,21 @@ static void p0_run(uint64_t idx, vh_rng_t * rng) {
     /* the application may initialise the same context object and buffers again: then NOTHING of A is left, not even status and errors */
     if (idx % 8 == 5) { vh_ctx_reinit(v); v->sigs = sigs; v->nsigs = NSIG; reinit = 1; }
     vh_ctx_clear_capture(v);
+    if (idx % 8 == 7 && B.len >= 2) {
+        /* two sources feed one context: B arrives through the input function in two pieces, and between the pieces the application hands a
+         * complete message of its own (front panel, macro) straight to the line parser. That message is a history like any other. */
+        static vh_buf_t M; int dummy = 0; size_t h = 1 + vh_below(rng, (uint32_t) B.len - 1), ol, ll; char * line; unsigned nf, ne;
+        vh_input(v, B.p, h);
+        ol = v->out.len; ll = v->log.len; nf = v->nflush; ne = (unsigned) v->nerrs;
+        vh_buf_reset(&M); gen_msg(rng, &M, &dummy); if (vh_chance(rng, 1, 2)) { M.len--; while (M.len && M.p[M.len - 1] == '\r') M.len--; vh_buf_addc(&M, ';'); gen_msg(rng, &M, &dummy); }
+        line = (char *) malloc(M.len + 1); memcpy(line, M.p, M.len); line[M.len] = 0;
+        SCPI_Parse(v->ctx, line, (int) M.len);
+        free(line);
+        v->out.len = ol; v->log.len = ll; v->nflush = nf; v->nerrs = (int) ne; /* its own events are not B's */
+        vh_input(v, B.p + h, B.len - h);
+        vh_count("pairs.line_parsed_directly_between_two_pieces_of_B", 1);
+        mixed = 1;
+    } else
     vh_input(v, B.p, B.len);
     capture(v, &after);
     if (reinit) {
@@ -192,7 +207,7 @@ static void p0_run(uint64_t idx, vh_rng_t * rng) {
     if (alone.len != after.len || memcmp(alone.p, after.p, alone.len) != 0) {
         const char * cls = (fa & 4) ? "after-unfinished-or-overlong-block" : (fa & 2) ? "after-failing-message" : "after-succeeding-message";
         const char * bcls = (fb & 16) ? "B-starts-relative" : (fb & 1) ? "B-responds" : "B-silent";
-        snprintf(key, sizeof key, "C09:trace-of-B-differs:%s:%s%s%s", cls, bcls, overrun ? ":after-overrun" : "", reinit ? ":after-SCPI_Init-again" : "");
+        snprintf(key, sizeof key, "C09:trace-of-B-differs:%s:%s%s%s", cls, bcls, overrun ? ":after-overrun" : "", reinit ? ":after-SCPI_Init-again" : mixed ? ":line-parsed-directly-in-between" : "");
         vh_violation(key, "A = \"%s\"%s%s; B = \"%s\": B alone -> [%s]; B after A -> [%s]", vh_esc(all.p, all.len), overrun ? " + pending bytes and an overrunning chunk" : "", zero_flush ? " + flush" : "", vh_esc(B.p, B.len), vh_esc(alone.p, alone.len), vh_esc(after.p, after.len));
     }
     vh_ctx_free(v);
@@ -279,6 +294,6 @@ int main(int argc, char ** argv) {
     static const vh_phase_t phases[] = { { "pairs", p0_count, p0_run }, { "units within one message", p1_count, p1_run } };
     vh_decoy_enable(7); vh_require("decoy.messages_run_on_a_second_context"); vh_require("pairs.direct_line_parse_same_length"); vh_require("unit.X_raises_errors"); vh_require("unit.block_data_without_header_after_unfinished_block"); vh_require("unit.both_units_raise_errors");
     vh_require("A.sequence_of_messages"); vh_require("A.raises_errors"); vh_require("A.leaves_block_unfinished_or_overlong"); vh_require("A.ends_with_compound_path");
-    vh_require("A.overrun_with_pending_bytes"); vh_require("pairs.context_initialised_again_between_A_and_B"); vh_require("pairs.A_ran_the_later_of_two_overlapping_entries_B_is_accepted_by_both"); vh_require("A.overrun_with_pending_complete_units"); vh_require("B.uses_relative_header"); vh_require("B.responds"); vh_require("A.responds"); vh_require("B.block_data_without_header_after_unfinished_block");
+    vh_require("A.overrun_with_pending_bytes"); vh_require("pairs.line_parsed_directly_between_two_pieces_of_B"); vh_require("pairs.context_initialised_again_between_A_and_B"); vh_require("pairs.A_ran_the_later_of_two_overlapping_entries_B_is_accepted_by_both"); vh_require("A.overrun_with_pending_complete_units"); vh_require("B.uses_relative_header"); vh_require("B.responds"); vh_require("A.responds"); vh_require("B.block_data_without_header_after_unfinished_block");
     return vh_main(argc, argv, "C09", phases, 2);
 }
